@@ -253,11 +253,11 @@ impl Check for C08 {
         };
         prop_loop(ctx, rec, "gen", strategy(), ctx.share(total), judge);
     }
-    fn replay(&self, _ctx: &Ctx, _sub: &str, case: &Value) -> Verdict {
+    fn replay(&self, ctx: &Ctx, _sub: &str, case: &Value) -> Verdict {
         match serde_json::from_value::<Case>(case.clone()) {
             Ok(c) => {
                 let mut last = Verdict::Pass;
-                for _ in 0..(if c.sched.is_some() { 3 } else { 1 }) {
+                for _ in 0..(if c.sched.is_some() { ctx.replay_attempts } else { 1 }) {
                     last = judge(&c, &mut Rec::default());
                     if matches!(last, Verdict::Fail(..)) {
                         return last;
